@@ -49,6 +49,7 @@ type Engine struct {
 	relatedCache map[[2]*types.Named]bool
 	scalarTags  map[int64]Sort
 	relatedCache2 map[string]bool
+	standaloneList []*types.Named
 	autoPureCache map[*ssa.Function]bool
 }
 
@@ -209,6 +210,9 @@ func (e *Engine) posOf(fn *ssa.Function) string {
 // VerifyFunction generates and discharges the obligations of one function under its contract.
 func (e *Engine) VerifyFunction(fn *ssa.Function, ct *Contract, timeoutMs, par int, cross bool) (res *UnitResult) {
 	unit := e.fnKey(fn)
+	if ct != nil && strings.Contains(ct.Key, " #") {
+		unit = ct.Key
+	}
 	res = &UnitResult{Unit: unit, Kind: "func", Contract: ct}
 	if ct != nil {
 		res.Props = ct.Props
@@ -228,6 +232,8 @@ func (e *Engine) VerifyFunction(fn *ssa.Function, ct *Contract, timeoutMs, par i
 	if ct != nil && ct.NoSafety {
 		x.safety = false
 	}
+	variant := ct != nil && strings.Contains(ct.Key, " #")
+	x.prune = variant && ct.Prune
 	s := x.initialState()
 	args := make([]Value, len(fn.Params))
 	env := &specEnv{x: x, fn: fn, st: s, names: map[string]Value{}}
@@ -281,7 +287,7 @@ func (e *Engine) VerifyFunction(fn *ssa.Function, ct *Contract, timeoutMs, par i
 		x.C.Cover(unit+"#cover.exit", e.posOf(fn), exit.Reach)
 		// every return site must be reachable under the precondition (vacuity guard:
 		// a contradictory assumption on one path would make everything on it provable)
-		if fr != nil && len(fr.returns) > 1 {
+		if fr != nil && len(fr.returns) > 1 && !variant {
 			for k, re := range fr.returns {
 				o := x.C.Cover(fmt.Sprintf("%s#cover.return%d", unit, k+1), x.pos(re.from.Instrs[len(re.from.Instrs)-1].Pos()), re.cond)
 				o.ReturnCover = true
@@ -413,7 +419,13 @@ func (e *Engine) VerifyUnit(key string, timeoutMs, par int, cross bool, dump str
 	if ct != nil && ct.Trusted {
 		return &UnitResult{Unit: key, Kind: "trusted", Contract: ct}
 	}
-	fn := e.Func(key)
+	// contract variants: "F #name" is a second contract of F, verified as its own
+	// unit (typically under a narrower precondition) and never applied at call sites
+	fkey := key
+	if i := strings.Index(key, " #"); i > 0 {
+		fkey = key[:i]
+	}
+	fn := e.Func(fkey)
 	if fn == nil {
 		return &UnitResult{Unit: key, Kind: "func", Contract: ct, Error: "unbound contract: no function " + key + " in package " + e.TPkg.Path()}
 	}
